@@ -21,6 +21,7 @@ structure Episode where
   stored : Nat           -- bytes that landed inside the RAM / window
   startAtOrigin : Bool   -- counter was at the window's start corner when the data began
   fill : Bool := false   -- produced by an auto-fill command
+  win : Nat × Nat × Nat × Nat := (0, 0, 0, 0)  -- window registers when the data arrived: pixels (x0,y0,x1,y1) inclusive
   deriving DecidableEq, Repr, Inhabited
 
 /-- state of the controller at the moment a refresh was triggered -/
@@ -87,11 +88,15 @@ def idx (s : Ssd) : Nat := s.cy * s.stride + s.cx
 def writeRam (plane : Nat) : Ssd → List UInt8 → Nat → Ssd × Nat
   | s, [], k => (s, k)
   | s, b :: bs, k =>
-    let s' := if s.inRam then
-        (if plane = 0 then { s with bw := s.bw.setIfInBounds s.idx b }
-         else { s with red := s.red.setIfInBounds s.idx b })
+    -- (everything read from `s` first, so that its arrays are uniquely referenced when written)
+    let inr := s.inRam
+    let i := s.idx
+    let k' := if inr then k + 1 else k
+    let s' := if inr then
+        (if plane = 0 then { s with bw := s.bw.setIfInBounds i b }
+         else { s with red := s.red.setIfInBounds i b })
       else s
-    writeRam plane s'.advance bs (if s.inRam then k + 1 else k)
+    writeRam plane s'.advance bs k'
 
 def word (lo hi : UInt8) : Nat := lo.toNat + 256 * hi.toNat
 
@@ -116,8 +121,8 @@ def feed (s : Ssd) : Blk → Ssd
     if cmd = 0x24 ∨ cmd = 0x26 then
       let plane := if cmd = 0x24 then 0 else 1
       let r := writeRam plane s ps 0
-      { r.1 with epis := { plane, count := ps.length, stored := r.2,
-                           startAtOrigin := s.atOrigin } :: s.epis }
+      { r.1 with epis := { plane, count := ps.length, stored := r.2, startAtOrigin := s.atOrigin,
+                           win := (s.xs * 8, s.ys, s.xe * 8 + 7, s.ye) } :: s.epis }
     else
     let s := { s with regs := (cmd, ps) :: s.regs }
     if cmd = 0x12 then s.resetRegs
@@ -163,6 +168,11 @@ def feed (s : Ssd) : Blk → Ssd
     else if cmd = 0x10 then
       match ps with
       | [m] => if m.toNat % 4 ≠ 0 then { s with asleep := true } else s
+      | _ => s
+    else if cmd = 0x07 then
+      -- the vendor's reference sequence for the 3.7in panel ends with the UC-style deep sleep
+      match ps with
+      | [v] => if v = 0xA5 then { s with asleep := true } else s
       | _ => s
     else s
 
